@@ -68,6 +68,10 @@ LITERALS = {
     "dup_wrap_false": (_lit(replace=[("WRAP. NO  : ONE LINE PER DEPTH STEP", "WRAP. NO  : ONE LINE PER DEPTH STEP\nWRAP. NO  : ONE LINE PER DEPTH STEP")]), {"wrap": False}),
     "dup_wrap_true": (_lit(replace=[("WRAP. NO  : ONE LINE PER DEPTH STEP", "WRAP. NO  : ONE LINE PER DEPTH STEP\nWRAP. YES : MULTIPLE")]), {"wrap": True}),
     "dup_vers_no_rows": (_lit(data="", replace=[("VERS. 2.0 : CWLS LOG ASCII STANDARD - VERSION 2.0", "VERS. 2.0 : CWLS LOG ASCII STANDARD - VERSION 2.0\nVERS. 2.0 : again")]), {"version": 2}),
+    "dup_wrap_true_narrow": (_lit(c1=_WIDE_C1, c2="X. : x", data="\n".join("%d.0 1 2 3 4 5 6" % i for i in (1, 2, 3)), replace=[("WRAP. NO  : ONE LINE PER DEPTH STEP", "WRAP. NO  : ONE LINE PER DEPTH STEP\nWRAP. NO  : ONE LINE PER DEPTH STEP")]), {"wrap": True, "data_width": 30}),
+    "dup_vers_no_rows_to_1.2": (_lit(data="", replace=[("VERS. 2.0 : CWLS LOG ASCII STANDARD - VERSION 2.0", "VERS. 2.0 : CWLS LOG ASCII STANDARD - VERSION 2.0\nVERS. 2.0 : again"), ("NULL. -999.25 : NULL VALUE", "NULL. -999.25 : NULL VALUE\nCOMP. ACME : COMPANY")]), {"version": 1.2}),
+    "null_marker_of_two_tokens": (_lit(data="1.0 2.0 5\n2.0 NaN 6\n3.0 4.0 7", replace=[("NULL. -999.25 : NULL VALUE", "NULL. -999.25 -9999 : NULL VALUES")]), {}),
+    "null_marker_text_with_blank": (_lit(data="1.0 2.0 5\n2.0 NaN 6\n3.0 4.0 7", replace=[("NULL. -999.25 : NULL VALUE", "NULL. NOT USED : NULL VALUE")]), {}),
     "wrapped_hash_sample": (_lit(c1=_WIDE_C1, c2="WHAT. : text\nTAG . : tag", data="\n".join("%d.0 1 2 3 4 5 run #%d" % (i, i) for i in (1, 2, 3))), {"wrap": True}),
     "wrapped_tilde_sample": (_lit(c1=_WIDE_C1, c2="WHAT. : text\nTAG . : tag", data="\n".join("%d.0 1 2 3 4 5 run ~%d" % (i, i) for i in (1, 2, 3))), {"wrap": True}),
     "wrapped_long_token": (_lit(data="1.0 2.0 http://example.org/%s\n2.0 3.0 def\n3.0 4.0 ghi" % ("x" * 70)), {"wrap": True}),
